@@ -69,6 +69,13 @@ def pair_src(i, op, a, b, form="expr"):
         else:
             lines += ["wv%d = ws%d.%s()" % (i, i, parse), "print %s %s wv%d" % (an, op, i)]
         return lines, exp
+    if form in ("lit-right", "lit-left"):
+        # ONE operand is written as a literal next to the operator, the other arrives through a variable: whatever the compiler
+        # does with an operator it can half-see (neutral elements, strength reduction) must keep value and kind
+        lines = ['print "@%d"' % i] + num.init_stmts(an, a) + ["print " + an] + num.init_stmts(bn, b) + ["print " + bn]
+        exp = ["str:@%d" % i, "%s:%s" % (a.k, num.fmt(a)), "%s:%s" % (b.k, num.fmt(b))]
+        lines.append("print %s %s %s" % ((an, op, num.literal(b)) if form == "lit-right" else (num.literal(a), op, bn)))
+        return lines, exp
     if form != "expr":
         lines = ['print "@%d"' % i] + num.init_stmts(an, a) + ["print " + an] + num.init_stmts(bn, b) + ["print " + bn]
         exp = ["str:@%d" % i, "%s:%s" % (a.k, num.fmt(a)), "%s:%s" % (b.k, num.fmt(b))]
@@ -150,8 +157,9 @@ def judge_single(op, a, b, form="expr"):
     else:
         got = "failed(%s)" % r.klass if r.klass in ("error", "panic") else "crashed(%s)" % r.klass
     kinds = a.k + ("," + b.k if b is not None else "")
-    opname = op if form == "expr" or form.startswith("wrapped-") else "%s=@%s" % (op, form)
-    sig = "C05:%s:%s:%s:%s" % (opname, kinds, expect, got)
+    opname = op if form == "expr" or form.startswith("wrapped-") else ("%s@%s" % (op, form) if form.startswith("lit-") else "%s=@%s" % (op, form))
+    # (a literal operand is another spelling of the same evaluation: same signature as the plain expression)
+    sig = "C05:%s:%s:%s:%s" % (op if form.startswith("lit-") else opname, kinds, expect, got)
     msg = "%s %s %s%s: model says %s %s; %s" % (a, opname, b, (" [right operand %s]" % form) if form.startswith("wrapped-") else "", kind, val, "; ".join(fails))
     return ("fail", fail(msg, sig, sc, case={"op": op, "a": repr(a), "b": repr(b), "form": form}))
 
@@ -241,6 +249,10 @@ def enumerated(tier, seed):
             if "float" not in (k1, k2):
                 for op in BIT:
                     cases += [{"op": op, "pairs": c} for c in chunks(pairs, 100)]
+            for form in ("lit-right", "lit-left"):
+                lp = [(a, b) for a, b in pairs if num.literal(b if form == "lit-right" else a) is not None]
+                for op in ARITH + CMP + (BIT if "float" not in (k1, k2) else []):
+                    cases += [{"op": op, "pairs": c, "form": form} for c in chunks(lp, 100)]
             if num.promote(k1, k2) == k1:
                 # the same operators as op-assignments (`t op= b`): the result must be storable in the target's kind
                 for form in FORMS[1:]:
